@@ -116,7 +116,7 @@ def run(res):
     vh, exe = P.base(res, PROP)
     rng = random.Random(res.seed)
     trees = exhaustive(rng)
-    for _ in range(600 if res.tier == "quick" else 12000):
+    for _ in range(600 if res.tier == "quick" else 60000):
         t = Tree(rng)
         n = rng.randrange(1, 5)
         trees.append(t.block(rng.choice([0, 1, 2, 3]), [rng.random() < 0.4 for _ in range(n)], rng.random() < 0.5, True))
